@@ -502,6 +502,7 @@ def _evaluate_log_F_ext_using_lmfit(
     method: str = "differential_evolution",
 ) -> List[Tuple[_KKFits, float]]:
     from lmfit import minimize, Parameters
+    from lmfit.minimizer import AbortFitException
 
     if not (min_log_F_ext <= 0.0 < max_log_F_ext):
         raise ValueError(f"Expected {min_log_F_ext=} <= 0.0 < {max_log_F_ext=}")
@@ -552,23 +553,29 @@ def _evaluate_log_F_ext_using_lmfit(
     if not max_nfev:
         prog.increment()
 
-    minimize(
-        _log_F_ext_residual,
-        parameters,
-        # Many of the other methods tend to get stuck on local minima,
-        # but the following work quite well
-        # - "differential_evolution"
-        # - "powell"
-        # - "slsqp"
-        # - "bfgs"
-        method=method,
-        args=(
-            wrapper_kwargs,
-            evaluations,
-            prog if max_nfev else None,
-        ),
-        max_nfev=max_nfev,
-    )
+    try:
+        minimize(
+            _log_F_ext_residual,
+            parameters,
+            # Many of the other methods tend to get stuck on local minima,
+            # but the following work quite well
+            # - "differential_evolution"
+            # - "powell"
+            # - "slsqp"
+            # - "bfgs"
+            method=method,
+            args=(
+                wrapper_kwargs,
+                evaluations,
+                prog if max_nfev else None,
+            ),
+            max_nfev=max_nfev,
+        )
+    except AbortFitException:
+        # The evaluation budget can run out during the final call that
+        # lmfit makes after the optimizer has already stopped. The
+        # evaluations collected so far are the result.
+        pass
     if not max_nfev:
         prog.increment()
 
